@@ -2,6 +2,7 @@ package main
 
 import (
 	"go/types"
+	"strings"
 
 	"golang.org/x/tools/go/ssa"
 )
@@ -223,4 +224,112 @@ func sigBool(f *ssa.Function) bool {
 	}
 	b, ok := f.Signature.Results().At(0).Type().Underlying().(*types.Basic)
 	return ok && b.Kind() == types.Bool
+}
+
+// ff resolves the unexported field names of File / importdef by role.
+func (c *Ctx) ff(role string) string {
+	key := "field:" + role
+	if roleNames[c] == nil {
+		roleNames[c] = map[string]string{}
+	}
+	if n, ok := roleNames[c][key]; ok {
+		return n
+	}
+	n := c.ff0(role)
+	if n == "" {
+		broken("anchor lost: cannot resolve the File field playing the role %q", role)
+	}
+	roleNames[c][key] = n
+	return n
+}
+
+var roleNames = map[*Ctx]map[string]string{}
+
+func (c *Ctx) ff0(role string) string {
+	ft := c.fileType().Underlying().(*types.Struct)
+	mapFields := func() []*types.Var {
+		var out []*types.Var
+		for i := 0; i < ft.NumFields(); i++ {
+			if m, ok := ft.Field(i).Type().Underlying().(*types.Map); ok {
+				if _, isStruct := m.Elem().Underlying().(*types.Struct); isStruct {
+					out = append(out, ft.Field(i))
+				}
+			}
+		}
+		return out
+	}
+	switch role {
+	case "imports":
+		reg := c.registerFn()
+		for _, b := range reg.Blocks {
+			for _, in := range b.Instrs {
+				if mu, ok := in.(*ssa.MapUpdate); ok {
+					if f := fieldOf(mu.Map); strings.HasPrefix(f, "jen.File.") {
+						return strings.TrimPrefix(f, "jen.File.")
+					}
+				}
+			}
+		}
+	case "hints":
+		imp := c.ff("imports")
+		for _, v := range mapFields() {
+			if v.Name() != imp {
+				return v.Name()
+			}
+		}
+	case "path", "name":
+		ctor := c.jenFunc("NewFilePathName")
+		if ctor == nil || len(ctor.Params) != 2 {
+			return ""
+		}
+		want := ctor.Params[0]
+		if role == "name" {
+			want = ctor.Params[1]
+		}
+		var find func(f *ssa.Function, want ssa.Value, depth int) string
+		find = func(f *ssa.Function, want ssa.Value, depth int) string {
+			for _, b := range f.Blocks {
+				for _, in := range b.Instrs {
+					if st, ok := in.(*ssa.Store); ok && st.Val == want {
+						if fl := fieldOf(st.Addr); strings.HasPrefix(fl, "jen.File.") {
+							return strings.TrimPrefix(fl, "jen.File.")
+						}
+					}
+					if call, ok := in.(*ssa.Call); ok && depth < 2 {
+						if sc := call.Call.StaticCallee(); sc != nil && c.inModule(sc) && sc.Blocks != nil {
+							for i, ar := range call.Call.Args {
+								if ar == want && i < len(sc.Params) {
+									if r := find(sc, sc.Params[i], depth+1); r != "" {
+										return r
+									}
+								}
+							}
+						}
+					}
+				}
+			}
+			return ""
+		}
+		return find(ctor, want, 0)
+	case "defname", "defalias":
+		for i := 0; i < ft.NumFields(); i++ {
+			if ft.Field(i).Name() != c.ff("imports") {
+				continue
+			}
+			st := ft.Field(i).Type().Underlying().(*types.Map).Elem().Underlying().(*types.Struct)
+			for j := 0; j < st.NumFields(); j++ {
+				b, ok := st.Field(j).Type().Underlying().(*types.Basic)
+				if !ok {
+					continue
+				}
+				if role == "defname" && b.Kind() == types.String {
+					return st.Field(j).Name()
+				}
+				if role == "defalias" && b.Kind() == types.Bool {
+					return st.Field(j).Name()
+				}
+			}
+		}
+	}
+	return ""
 }
